@@ -49,6 +49,8 @@ def canon(v):
         return ["f", int(v.arity)]
     if isinstance(v, KGLambda):
         return ["f", int(v.get_arity())]
+    if isinstance(getattr(v, "fn", None), KGFn):      # KGFnWrapper around a Klong function
+        return ["f", int(v.fn.arity)]
     if callable(v):
         return ["f", -1]
     try:
